@@ -383,9 +383,8 @@ Qed.
 
 Lemma locate_inv g s tg orc : InvS g s -> InvS g (snd (fst (locate s tg orc))).
 Proof. intros H. unfold locate. destruct (find_on (s_raw s) tg); [exact H|].
-  destruct orc as [|a r]; (match goal with |- context[find_on ?a tg] => destruct (find_on a tg) end; [exact H|]).
-  - match goal with |- context[find_match ?a ?b ?c] => destruct (find_match a b c) end. exact H.
-  - destruct a; [exact H|]. match goal with |- context[find_match ?a ?b ?c] => destruct (find_match a b c) end. exact H. Qed.
+  destruct (approx (s_raw s) tg orc) as [m1 orc1]. match goal with |- context[find_on ?a tg] => destruct (find_on a tg) end; [exact H|].
+  destruct m1; [exact H|]. match goal with |- context[find_match ?a ?b ?c] => destruct (find_match a b c) end. exact H. Qed.
 Lemma apply_located_inv g s uc st ml nw cm : InvS g s ->
   InvS (g || isN (snd (apply_located s uc st ml nw cm))) (fst (apply_located s uc st ml nw cm)).
 Proof. intros H. unfold apply_located.
@@ -845,9 +844,8 @@ Proof. unfold apply_located.
   match goal with |- context[match ?a with [] => _ | _ :: _ => _ end] => destruct a end; first [apply apply_indexed_not_applied | leafA]. Qed.
 Lemma locate_doc s tg orc : sdoc (snd (fst (locate s tg orc))) = sdoc s.
 Proof. unfold locate, sdoc. destruct (find_on (s_raw s) tg); [reflexivity|].
-  destruct orc as [|a r]; (match goal with |- context[find_on ?a tg] => destruct (find_on a tg) end; [reflexivity|]).
-  - match goal with |- context[find_match ?a ?b ?c] => destruct (find_match a b c) end. reflexivity.
-  - destruct a; [reflexivity|]. match goal with |- context[find_match ?a ?b ?c] => destruct (find_match a b c) end. reflexivity. Qed.
+  destruct (approx (s_raw s) tg orc) as [m1 orc1]. match goal with |- context[find_on ?a tg] => destruct (find_on a tg) end; [reflexivity|].
+  destruct m1; [reflexivity|]. match goal with |- context[find_match ?a ?b ?c] => destruct (find_match a b c) end. reflexivity. Qed.
 Lemma apply_heuristic_not_applied s tg nw cm orc :
   applied (snd (fst (apply_heuristic s tg nw cm orc))) = false -> ARel (sdoc s) (sdoc (fst (fst (apply_heuristic s tg nw cm orc)))).
 Proof. unfold apply_heuristic. destruct tg as [|c tg']; [intros _; apply ARel_refl|].
